@@ -622,6 +622,19 @@ func (f *FuncFacts) loopCondAtom(b *ssa.BasicBlock, iff *ssa.If, succ int) (stri
 		if start, ok := countdownStart(cond); ok && succ == 0 {
 			return "each(#" + f.c.term(stripConv(start)) + ")", true
 		}
+		if k0, ok := inductionStart(stripConv(cond.X)); ok && k0.Sign() > 0 && succ == 0 && (cond.Op == token.LEQ || cond.Op == token.LSS) {
+			// for i := k; i <= B; i++ runs B-k+1 times; for i := k; i < B; i++ runs B-k times
+			off := new(big.Int).Neg(k0)
+			if cond.Op == token.LEQ {
+				off.Add(off, big.NewInt(1))
+			}
+			if kb, ok := intConst(cond.Y); ok {
+				return "each(#" + new(big.Int).Add(kb, off).String() + ")", true
+			}
+			if off.Sign() == 0 {
+				return f.c.eachAtom(cond.Y), true
+			}
+		}
 		if cond.Op == token.LEQ && succ == 0 && isInductionVar(stripConv(cond.X)) {
 			if k, ok := intConst(cond.Y); ok {
 				return "each(#" + new(big.Int).Add(k, big.NewInt(1)).String() + ")", true
@@ -704,8 +717,10 @@ func (f *FuncFacts) isLoopExit(d *ssa.BasicBlock, k int) bool {
 	if k == 1 && f.c.rotByPre(d) != nil {
 		return true
 	}
+	// only the loop's own test: leaving through it says no more than "the loop is over". An exit
+	// from inside the body (conditional return or break) is a decision and keeps its condition.
 	for h, set := range f.loops {
-		if (h == d || set[d]) && !set[d.Succs[k]] && set[d.Succs[1-k]] {
+		if h == d && !set[d.Succs[k]] && set[d.Succs[1-k]] {
 			return true
 		}
 	}
@@ -764,14 +779,22 @@ func (f *FuncFacts) Accepts() []*Guard {
 		kind := "accept"
 		if ri.ins != nil && len(ri.ins.Results) > 0 {
 			var vals []string
+			_, decided := f.boolReturn(ri)
 			for i, v := range ri.ins.Results {
 				if f.mode == rejErr && i == len(ri.ins.Results)-1 {
+					continue
+				}
+				if decided && i == len(ri.ins.Results)-1 {
+					vals = append(vals, fmt.Sprint(f.mode != rejTrue)) // what is left after the failing alternatives
 					continue
 				}
 				vals = append(vals, f.c.term(unspill(v, ri.blk)))
 			}
 			if len(vals) > 0 {
 				kind = "accept <- (" + strings.Join(vals, ", ") + ")"
+			}
+			if decided {
+				ri = &retInfo{ins: ri.ins, blk: ri.blk, kind: retAccept}
 			}
 		}
 		switch ri.kind {
@@ -977,6 +1000,32 @@ func (f *FuncFacts) computeGuards() []*Guard {
 			}
 		}
 	}
+	for _, ri := range f.rets {
+		fail, ok := f.boolReturn(ri)
+		if !ok {
+			continue
+		}
+		ctx := f.context(ri.blk, rejEdge)
+		var base []string
+		for _, c := range ctx {
+			base = append(base, c.atom)
+		}
+		seen := map[string]bool{}
+		for _, p := range fail {
+			as := simplifyAtoms(append(append([]string{}, base...), p...))
+			if key := strings.Join(as, " && "); seen[key] {
+				continue
+			} else {
+				seen[key] = true
+			}
+			g := &Guard{Fn: funcName(f.fn), Atoms: as, Code: fmt.Sprint(f.mode == rejTrue), Pos: ri.ins.Pos(), blk: ri.blk, ctx: ctx}
+			if !g.Pos.IsValid() {
+				g.Pos = f.blockPos(ri.blk)
+			}
+			g.Avoid = f.avoidable(g)
+			out = append(out, g)
+		}
+	}
 	return f.composeGuards(out)
 }
 
@@ -1072,15 +1121,23 @@ func (f *FuncFacts) retPos(r *retInfo) token.Pos {
 // isInductionVar: loop phi that starts at 0 and is incremented by 1 on every back edge — the
 // index of `for i := 0; i < n; i++`, which is the same loop as `for i := range n`.
 func isInductionVar(v ssa.Value) bool {
+	k, ok := inductionStart(v)
+	return ok && k.Sign() == 0
+}
+
+// inductionStart: v is a loop phi that starts at the constant k and is incremented by 1 on every
+// back edge: v == k + ‹i›.
+func inductionStart(v ssa.Value) (*big.Int, bool) {
 	ph, ok := v.(*ssa.Phi)
 	if !ok || len(ph.Edges) != 2 {
-		return false
+		return nil, false
 	}
-	zero, step := false, false
+	var start *big.Int
+	step := false
 	for _, e := range ph.Edges {
 		e = stripConv(e)
-		if k, ok := intConst(e); ok && k.Sign() == 0 {
-			zero = true
+		if k, ok := intConst(e); ok {
+			start = k
 			continue
 		}
 		if b, ok := e.(*ssa.BinOp); ok && b.Op == token.ADD {
@@ -1093,5 +1150,8 @@ func isInductionVar(v ssa.Value) bool {
 			}
 		}
 	}
-	return zero && step
+	if start == nil || !step || !start.IsInt64() || start.Int64() < 0 || start.Int64() > 64 {
+		return nil, false
+	}
+	return start, true
 }
